@@ -301,13 +301,6 @@ theorem upsample_center_matches_shift (n j : ℤ) (hn : 0 < n) :
   have : j + n / 2 = j - (n - n / 2) + n := by ring
   rw [this, Int.add_emod_right]
 
-theorem upsample_wiring :
-    Gen.us_corr_center_expr = "np.ceil(np.asarray(corr_shape) / 2, dtype=np.float32)" ∧
-    Gen.us_shift = "upsample_pos - corrmap_center" ∧ Gen.us_shift_us = "np.round(shift * upsample_factor)" ∧
-    Gen.us_sample_region_offset = "dftshift - shift_us" ∧
-    Gen.us_frequencies = "(fft.fftfreq(corr_shape[0], upsample_factor), fft.rfftfreq(corr_shape[1], upsample_factor))" ∧
-    Gen.us_corr_shape = "corrs.shape[1:] if corrspec_stack else sig_shape" := ⟨rfl, rfl, rfl, rfl, rfl, rfl⟩
-
 /-- the centring facts of C16 this property relies on, for every size -/
 theorem centring_chain (n target source : ℤ) (ht : 1 ≤ target) (hs : 1 ≤ source) :
     Gen.mask_center n = n / 2 ∧ utIndex target source (target / 2) = some (source / 2) :=
